@@ -501,9 +501,14 @@ TypedValue evaluate_binary_op_typed(
     } else if (node->op == "^") {
         return make_integer_typed_value(left_int ^ right_int);
     } else if (node->op == "<<") {
-        return make_integer_typed_value(left_int << right_int);
+        // count modulo 64, shift of the unsigned representation: no undefined
+        // behaviour for counts outside 0..63 or negative left operands
+        return make_integer_typed_value(static_cast<int64_t>(
+            static_cast<uint64_t>(left_int)
+            << (static_cast<uint64_t>(right_int) & 63)));
     } else if (node->op == ">>") {
-        return make_integer_typed_value(left_int >> right_int);
+        return make_integer_typed_value(
+            left_int >> (static_cast<uint64_t>(right_int) & 63));
     }
 
     // 未対応の演算子の場合は例外
